@@ -59,7 +59,7 @@ static int find_var(const char* name) {
 }
 
 /* ---- queues --------------------------------------------------------------------------- */
-#define QMAX 256
+#define QMAX 8192
 struct queue { char* ev[QMAX]; int head, tail; };
 static struct queue IQ, EQ;
 static void qpush(struct queue* q, const char* name) {
